@@ -171,6 +171,36 @@ open Andes.Events in
 /-- two coincident enabled Toggles on one device cancel -/
 example : applyAt [⟨(1:ℚ), true, 0⟩, ⟨1, true, 0⟩] 1 [true, true] = [true, true] := by decide
 
+
+/-! ### Custom events and the connectivity re-check -/
+
+theorem doSwitch_keeps_custom (c : Cfg ℚ) (s : St ℚ) :
+    (doSwitch c s).customPending = s.customPending ∧ (doSwitch c s).connChecks = s.connChecks ∧
+    (doSwitch c s).customs = s.customs ∧ (doSwitch c s).t = s.t := by
+  unfold doSwitch; split
+  · split_ifs <;> simp
+  · simp
+
+/-- **Every switching — by a timed event or by a custom event flag — is followed by exactly one
+connectivity re-check** (with `check_conn` on), a pending custom event runs once and is cleared, and a
+pass without any switching re-checks nothing. -/
+theorem switching_is_followed_by_connectivity_check (c : Cfg ℚ) (s : St ℚ) (hc : c.checkConn = true) :
+    let s' := doSwitch' c s
+    (((doSwitch c s).idx ≠ s.idx ∨ s.customPending = true) → s'.connChecks = s.connChecks + 1) ∧
+    (((doSwitch c s).idx = s.idx ∧ s.customPending = false) → s'.connChecks = s.connChecks) ∧
+    s'.customPending = false ∧
+    (s.customPending = true → s'.customs = s.t :: s.customs) ∧
+    (s.customPending = false → s'.customs = s.customs) := by
+  obtain ⟨h1, h2, h3, h4⟩ := doSwitch_keeps_custom c s
+  simp only [doSwitch', customSwitch, h1, h2, h3, h4, hc, Bool.and_true]
+  refine ⟨?_, ?_, trivial, ?_, ?_⟩
+  · rintro (h | h)
+    · simp [h]
+    · simp [h]
+  · rintro ⟨h, h'⟩; simp [h, h']
+  · intro h; simp [h]
+  · intro h; simp [h]
+
 /-! ### Non-vacuity and the excluded inputs -/
 
 def demoCfg : Cfg ℚ :=
@@ -183,8 +213,8 @@ example : Hyp demoCfg := by
   · simp [demoCfg]; norm_num
   · intro x hx; simp [demoCfg] at hx; rcases hx with rfl | rfl | rfl <;> norm_num
 
-def acc (n : Nat) : Verdict := ⟨true, n, false, false⟩
-def rej (n : Nat) : Verdict := ⟨false, n, false, false⟩
+def acc (n : Nat) : Verdict := ⟨true, n, false, false, false⟩
+def rej (n : Nat) : Verdict := ⟨false, n, false, false, false⟩
 
 /-- a concrete complete run of the model: 3 events fire at 0.0499, 0.05, 0.0501 and the run ends at 0.1 -/
 example :
